@@ -25,11 +25,12 @@ struct Opts {
     prefix: Option<String>,
     format: bool,
     exit: bool,
+    again: Option<String>,
     positional: Vec<String>,
 }
 
 fn parse_opts(args: &[String]) -> Opts {
-    let mut o = Opts { derives: None, ctx: None, file: None, dir: None, dest: None, prefix: None, format: false, exit: false, positional: vec![] };
+    let mut o = Opts { derives: None, ctx: None, file: None, dir: None, dest: None, prefix: None, format: false, exit: false, again: None, positional: vec![] };
     let mut i = 0;
     while i < args.len() {
         let a = args[i].as_str();
@@ -50,6 +51,7 @@ fn parse_opts(args: &[String]) -> Opts {
             "--prefix" => o.prefix = Some(val()),
             "--format" => o.format = true,
             "--exit" => o.exit = true,
+            "--again" => o.again = Some(val()),
             _ => o.positional.push(a.to_string()),
         }
         i += 1;
@@ -123,9 +125,40 @@ fn main() {
             if let Some(c) = &o.ctx {
                 settings.set_user_context_type(c);
             }
-            let r = Grammar::from_str(&text)
-                .map_err(|e| format!("parse error: {e:?}"))
-                .and_then(|g| g.generate_code(&settings).map_err(|e| format!("codegen error: {e:?}")));
+            // --again: the value handed to generate_code has a history (used before, cloned, printed); the LAST result is shown
+            let again = o.again.clone();
+            let r = Grammar::from_str(&text).map_err(|e| format!("parse error: {e:?}")).and_then(|g| {
+                let gen = |g: &Grammar| g.generate_code(&settings).map_err(|e| format!("codegen error: {e:?}"));
+                match again.as_deref() {
+                    None => gen(&g),
+                    Some("same") => {
+                        let _ = gen(&g);
+                        gen(&g)
+                    }
+                    Some("thrice") => {
+                        let _ = gen(&g);
+                        let _ = gen(&g);
+                        gen(&g)
+                    }
+                    Some("clone_after") => {
+                        let _ = gen(&g);
+                        let c = g.clone();
+                        gen(&c)
+                    }
+                    Some("clone_before") => {
+                        let c = g.clone();
+                        let _ = gen(&c);
+                        drop(c);
+                        gen(&g)
+                    }
+                    Some("debug_first") => {
+                        let d = format!("{g:?}");
+                        std::hint::black_box(d.len());
+                        gen(&g)
+                    }
+                    Some(other) => Err(format!("unknown --again mode {other}")),
+                }
+            });
             match r {
                 Ok(code) => println!("OK\n{code}"),
                 Err(e) => println!("ERR\n{e}"),
